@@ -81,11 +81,7 @@ class DiagonalGaussian(_ProbabilisticModel):
         """
         D = self.mean.shape[-1]
         difference = y - self.mean[..., None, :]
-        white_x = np.einsum(
-            '...dD,...nD->...nd',
-            self.precision_cholesky,
-            difference
-        )
+        white_x = self.precision_cholesky[..., None, :] * difference
         return (
                 - 1 / 2 * D * np.log(2 * np.pi)
                 + self.log_det_precision_cholesky[..., None]
